@@ -143,6 +143,11 @@ class ConstBitStream(Bits):
         s._pos = 0
         return s
 
+    def copy(self: TConstBitStream) -> TConstBitStream:
+        """Return a copy of the bitstring. The copy's bit position is reset to 0."""
+        # Bits.copy() returns self, which for a stream would share (and let callers move) the bit position.
+        return self.__copy__()
+
     def __and__(self: TConstBitStream, bs: BitsType, /) -> TConstBitStream:
         """Bit-wise 'and' between two bitstrings. Returns new bitstring.
 
